@@ -279,10 +279,18 @@ fn start_states() -> Vec<String> {
         // CR line ends: a bare CR is a line end for the readers, CR-only blank lines separate paragraphs
         "A: a\r\rB: b\r",
         "A: a\r\r\rC: c\r\rB: b",
+        // error trees (outside the oracles' domain: only model and implementation are compared): a
+        // key without colon at the end of the input leaves an EMPTY ERROR node as last child, and
+        // rowan's `last_token()` is `None` on such a chain - `terminate_last_line` does nothing
+        "A",
+        "A\nB: c",
+        "A: b\nC",
+        "A: b\n\nC",
     ];
     let mut v: Vec<String> = texts.iter().map(|t| format!("t.{}", es(t))).collect();
     // the same operations on the live result of wrap_and_sort (bare tokens under the root)
-    for t in ["# top\n\nA: a\n\n# mid\n\nB: b\n", "# top\nA: a\n\n# about B\nB: b\n", "# only\n", "A: b\n\nB: c", "A: b\n# in\nC: d\n\n# tail\n"] {
+    for t in ["# top\n\nA: a\n\n# mid\n\nB: b\n", "# top\nA: a\n\n# about B\nB: b\n", "# only\n", "A: b\n\nB: c", "A: b\n# in\nC: d\n\n# tail\n",
+              "A", "A: b\nC", "A: b\n\nC"] {
         v.push(format!("w.{}", es(t)));
     }
     let docs: Vec<Vec<Vec<(String, String)>>> = vec![
